@@ -159,6 +159,59 @@ def export_event(eid, b, time, hist, units, tunit):
         shutil.rmtree(d, ignore_errors=True)
 
 
+PLOT_ARG = {'angular_position': 'angular_position_unit', 'angular_speed': 'angular_speed_unit', 'angular_acceleration': 'angular_acceleration_unit',
+            'torque': 'torque_unit', 'force': 'force_unit', 'stress': 'stress_unit', 'current': 'current_unit'}
+
+
+def plot_event(eid, b, time, hist, elsel, by_name, sel, units, tunit):
+    """Powertrain.plot on the Agg backend: the figure is read back (grid geometry, titles, every line's label and data)"""
+    import matplotlib
+    matplotlib.use('Agg')
+    import matplotlib.pyplot as plt
+    pt = b['pt']
+    units = dict(units)
+    units['driving_torque'] = units['load_torque'] = units['torque']          # one torque unit governs the three torques of the figure
+    kwargs = {arg: units[k] for k, arg in PLOT_ARG.items()}
+    elements = None if elsel is None else [(pt.elements[k].name if by_name else pt.elements[k]) for k in elsel]
+    variables = None if sel is None else [SP[v] for v in sel]
+    show = plt.show
+    plt.show = lambda *a, **k: None
+    plt.close('all')
+    try:
+        with contextlib.redirect_stdout(io.StringIO()):
+            _, err = outcome(lambda: pt.plot(elements=elements, variables=variables, time_unit=tunit, **kwargs))
+        idx = sorted(range(len(pt.elements)) if elsel is None else set(elsel))
+        e = {'id': eid, 'ev': 'plot', 'time': time, 'hist': hist, 'names': [o.name for o in pt.elements], 'elsel': [k + 1 for k in idx],
+             'sel': [] if sel is None else list(sel), 'units': units, 'tunit': tunit}
+        if err is not None:
+            e['out'] = {'ok': False, 'err': err, 'nrows': 0, 'ncols': 0, 'cells': []}
+            return e
+        fig = plt.gcf()
+        cells, geo = [], (0, 0)
+        for a in fig.axes:
+            ss = a.get_subplotspec()
+            if ss is None:
+                continue
+            geo = ss.get_gridspec().get_geometry()
+            lines = []
+            for ln in a.get_lines():
+                lines.append({'label': str(ln.get_label()), 'x': [num_cell(x) for x in ln.get_xdata()], 'y': [num_cell(y) for y in ln.get_ydata()]})
+            cells.append({'row': ss.rowspan.start + 1, 'col': ss.colspan.start + 1, 'title': str(a.get_title()), 'lines': lines})
+        e['out'] = {'ok': True, 'err': '', 'nrows': geo[0], 'ncols': geo[1], 'cells': cells}
+        return e
+    finally:
+        plt.close('all')
+        plt.show = show
+
+
+def num_cell(x):
+    try:
+        f = float(x)
+    except (TypeError, ValueError):
+        return 'nan'
+    return 'nan' if f != f or f in (float('inf'), float('-inf')) else rstr(f)
+
+
 def gen(tier, seed):
     import_repo()
     rnd = random.Random(seed)
@@ -203,6 +256,16 @@ def gen(tier, seed):
         for _ in range(2 if tier == 'quick' else 6):
             evs.append(export_event(eid(), b, time, hist, units_choice(rnd), rnd.choice(solver_gen.TIME_UNITS)))
         evs.append(export_event(eid(), b, time, hist, units_choice(rnd, default=True), 'sec'))
+        # the figure of the same history (growth beyond the listed properties): element selections x variable selections
+        n_el = len(b['pt'].elements)
+        psels = [(None, None)] + [(None, (v,)) for v in avail] + [((k,), None) for k in range(n_el)]
+        for _ in range(6 if tier == 'quick' else 25):
+            es = tuple(rnd.sample(range(n_el), rnd.randint(1, n_el)))           # any order: the figure follows the powertrain's order
+            vs = tuple(sorted(rnd.sample(avail, rnd.randint(1, len(avail))), key=VARS.index))
+            psels.append((es, vs))
+        for p_i, (es, vs) in enumerate(psels):
+            evs.append(plot_event(eid(), b, time, hist, es, p_i % 2 == 1, vs, units_choice(rnd, default=(p_i % 4 == 0)), rnd.choice(solver_gen.TIME_UNITS)))
+        stats['figures'] = stats.get('figures', 0) + len(psels)
     return evs, stats
 
 
@@ -214,7 +277,11 @@ def run_C18(tier, seed):
     v.traces = v.evaluations = len(evs)
     byid = {e['id']: e for e in evs}
     for tid, fails in res.fails.items():
-        if fails:
+        if fails and byid[tid]['ev'] == 'plot':
+            # Powertrain.plot is outside C18's statement: a mismatch is a note in the evidence, never a verdict
+            e = byid[tid]
+            v.extra.setdefault('plot_mismatches', []).append({'clauses': fails, 'event': {k: e[k] for k in ('id', 'elsel', 'sel', 'units', 'tunit')}, 'error': e['out'].get('err')})
+        elif fails:
             e = byid[tid]
             v.violation({'clauses': fails, 'event': {k: e[k] for k in e if k not in ('time', 'hist', 'out')}, 'columns': e['out'].get('columns'),
                          'rows': e['out'].get('rows') if e['ev'] == 'snapshot' else None})
@@ -226,11 +293,13 @@ def run_C18(tier, seed):
     aby = {e['id']: e for e in aev}
     v.extra['api_contract_events'] = len(aev)
     v.extra['api_contract_mismatches'] = [{'clauses': f, 'event': aby[t]} for t, f in ares.fails.items() if f]
-    v.distinct = len({(e['ev'], tuple(e.get('sel', [])), str(e['units']), e.get('t'), tuple(e['names']) if 'names' in e else ()) for e in evs})
+    v.distinct = len({(e['ev'], tuple(e.get('sel', [])), tuple(e.get('elsel', [])), str(e['units']), e.get('t'), tuple(e['names']) if 'names' in e else ()) for e in evs})
     v.rule = ('real simulated powertrains (seeded random chains with force / stress / current variables recorded where the data allow); snapshot at recorded instants, between them and at both ends, target time in '
               'any time unit, variable selections {none, every singleton, every complement, pairs, random subsets' + ('' if tier == 'quick' else ', EVERY non-empty subset for the first six powertrains') +
               '}, output units drawn from every unit list; export to CSV in random units, re-read; TLC checks columns, every cell (linear interpolation, unit conversion, NaN exactly where the element does not record the variable) and every CSV value')
     v.extra.update(stats)
+    v.extra['plot_events'] = sum(1 for e in evs if e['ev'] == 'plot')
+    v.extra.setdefault('plot_mismatches', [])
     v.sample({k: evs[0][k] for k in ('id', 'ev', 't', 'sel', 'units')} | {'columns': evs[0]['out']['columns']})
     v.sample({k: evs[-1][k] for k in ('id', 'ev', 'units', 'tunit')})
     v.assumptions = ['only variables at least one element records are requested (others raise ValueError by contract)']
